@@ -253,30 +253,44 @@ func c07Adders(s *gen.Spec) (out []*gen.Spec) {
 
 const c07Rows = 16
 
-func c07PairCases() int { return (len(c07Pool) + c07Rows - 1) / c07Rows }
+func c07PairCases() int {
+	c07Ensure()
 
-func init() {
+	return (len(c07Pool) + c07Rows - 1) / c07Rows
+}
+
+// c07Ensure builds the pool on first use (not when the package is loaded: a
+// process of another property must not have parsed rules before its first
+// case does).
+func c07Ensure() {
 	c07PoolOnce.Do(func() {
 		c07BuildPool()
 		c07BuildBig()
 		c07BuildSpecial()
 	})
+}
+
+func init() {
 	tripleCases := map[core.Tier]int{core.Quick: 64, core.Thorough: 60000}
 	selCases := map[core.Tier]int{core.Quick: 3000, core.Thorough: 300000}
 	core.Register(&core.Prop{
 		ID:    "C07",
 		Level: "exploration",
-		Rule: fmt.Sprintf("pool = every combination of the features the comparison reads (exception x important x 6 $domain shapes (incl. wildcard-TLD only) x 5 content-type shapes x third-party x match-case x $dnstype x $ctag x $client x $denyallow, plus rules carrying 10..16 modifiers (all content types and more) and blocking rules with $empty / $mp4 / $popup, = %d rules); "+
-			"exhaustive over the pool: irreflexivity, asymmetry and agreement with class order / specific-over-generic for all ordered pairs, the winner of both selection functions on every ordered pair, add-one-modifier => strictly higher for every rule; "+
-			"transitivity of > and of incomparability on all triples of PRNG-drawn 90-rule subsets; selection maximality for candidate lists of 2..5 rules in all permutations (one in thirty: 13..60 rules in 24 PRNG-drawn orders) through NewMatchingResult (also with a referrer-level $genericblock / $urlblock exception, winner maximal among the eligible candidates) and GetDNSBasicRule, and through NetworkEngine.Match / Engine.MatchRequest / DNSEngine.MatchRequest with the candidates spread over the three lookup tables; "+
-			"non-trivial = pool rule compared against the whole pool (its ordered pairs are counted in events.ordered_pairs), triple subset, or candidate list; distinct by the rule texts involved", len(c07Pool)),
+		Rule: fmt.Sprintf("pool = every combination of the features the comparison reads (exception x important x 6 $domain shapes (incl. wildcard-TLD only) x 5 content-type shapes x third-party x match-case x $dnstype x $ctag x $client x $denyallow, plus rules carrying 10..16 modifiers (all content types and more) and blocking rules with $empty / $mp4 / $popup; its size is events.pool_rules); " +
+			"exhaustive over the pool: irreflexivity, asymmetry and agreement with class order / specific-over-generic for all ordered pairs, the winner of both selection functions on every ordered pair, add-one-modifier => strictly higher for every rule; " +
+			"transitivity of > and of incomparability on all triples of PRNG-drawn 90-rule subsets; selection maximality for candidate lists of 2..5 rules in all permutations (one in thirty: 13..60 rules in 24 PRNG-drawn orders) through NewMatchingResult (also with a referrer-level $genericblock / $urlblock exception, winner maximal among the eligible candidates) and GetDNSBasicRule, and through NetworkEngine.Match / Engine.MatchRequest / DNSEngine.MatchRequest with the candidates spread over the three lookup tables (patterns that spell out http:// included; the DNS winner is compared with candidates established without the engine); " +
+			"non-trivial = pool rule compared against the whole pool (its ordered pairs are counted in events.ordered_pairs), triple subset, or candidate list; distinct by the rule texts involved"),
 		Assumptions: []string{
 			"'exhaustive' is relative to the pool; document-level options are excluded from add-a-modifier because they replace the content-type set",
 			"$redirect cannot be parsed by this version, so its priority term is not reachable",
 		},
 		Cases: func(t core.Tier) int { return c07PairCases() + tripleCases[t] + selCases[t] },
 		Run: func(c *core.Ctx, idx int) {
+			c07Ensure()
 			pool := c07Pool
+			if idx == 0 {
+				c.Event("pool_rules", int64(len(pool)))
+			}
 			switch {
 			case idx < c07PairCases():
 				// Rows of the pair matrix.
@@ -580,7 +594,10 @@ func c07EngineSelection(c *core.Ctx) {
 			continue
 		}
 		s := base.Clone()
-		s.Pattern = []string{"||x.com^", "||x.com^", "|https://", "/x\\.com/", "x.c", "https://x.com/"}[c.Rng.Intn(6)]
+		s.Pattern = []string{"||x.com^", "||x.com^", "|https://", "/x\\.com/", "x.c", "https://x.com/",
+			// Patterns that spell out the scheme: the one a host name is asked
+			// about with (hostname requests), without a pipe.
+			"http://x.com^", "http://x.com/", "://x.com", "http://x.c", "ttp://x.com^"}[c.Rng.Intn(11)]
 		if s.MatchCase && s.Pattern == "/x\\.com/" {
 			s.MatchCase = false
 		}
@@ -684,6 +701,32 @@ func c07EngineSelection(c *core.Ctx) {
 	// The DNS entry point has a selection function of its own.
 	de := urlfilter.NewDNSEngine(util.Storage(contents...))
 	dres, _ := de.MatchRequest(&urlfilter.DNSRequest{Hostname: "x.com", DNSType: 1, ClientIP: req.ClientIP, SortedClientTags: req.SortedClientTags})
+	// The candidates of the DNS engine, established without it: every line that
+	// it loads (host-level rules), asked whether it matches the host name.
+	hreq := rules.NewRequestForHostname("x.com")
+	hreq.DNSType, hreq.ClientIP, hreq.SortedClientTags = 1, req.ClientIP, req.SortedClientTags
+	var hostAll []*rules.NetworkRule
+	for _, l := range lines {
+		if r, perr := rules.NewNetworkRule(l, 0); perr == nil && r.IsHostLevelNetworkRule() && r.Match(hreq) {
+			hostAll = append(hostAll, r)
+		}
+	}
+	if len(hostAll) >= 2 {
+		c.Eval(1)
+		c.Event("dns_engine_selection_lists_with_independent_candidates", 1)
+		if w := dres.NetworkRule; w == nil {
+			c.Violation("no-winner:DNSEngine.MatchRequest", nil, lines, "DNSEngine.MatchRequest selected nothing although %d rules match: %v", len(hostAll), util.Texts(hostAll))
+		} else {
+			for _, o := range hostAll {
+				if o.IsHigherPriority(w) {
+					c.Violation("winner-outranked:DNSEngine.MatchRequest", nil, map[string]any{"lists": contents, "winner": w.RuleText, "outranked_by": o.RuleText},
+						"DNSEngine.MatchRequest selected %q although the matching rule %q outranks it (lists %q)", w.RuleText, o.RuleText, contents)
+
+					break
+				}
+			}
+		}
+	}
 	if len(dres.NetworkRules) >= 2 {
 		c.Eval(1)
 		c.Event("dns_engine_selection_lists", 1)
